@@ -488,10 +488,13 @@ def ruleHHMMmilitary(ts: datetime, m: RegexMatch) -> Optional[Time]:
     r"(?<!\d|\.)"  # We don't start matching with another number, or a dot
     r"(?P<hour>(?&_hour))"  # We certainly match an hour
     # We try to match also the minute
-    r"((?P<sep>:|uhr|h|\.)(?P<minute>(?&_minute)))?"
+    # (also "8 Uhr 30" with blanks, unless the number reads on as a date or
+    # time: "8 Uhr 12.3.", "8 Uhr 30.", "8 Uhr 12 Februar")
+    r"((?P<sep>:|uhr|h|\.|\s+uhr\s+(?=(?&_minute)(?![\d.:]|\s*({}))))"
+    r"(?P<minute>(?&_minute)))?"
     r"\s*((?P<clock>uhr|h)\b)?"  # We match uhr with no minute (a whole word)
     r"(?P<ampm>\s*[ap]\.?m\.?)?"  # AM PM
-    r"(?!\d)"
+    r"(?!\d)".format("|".join(expr for _, expr in _months))
 )
 def ruleHHMM(ts: datetime, m: RegexMatch) -> Time:
     # hh [am|pm]
